@@ -4,7 +4,8 @@ rows=[]
 for p in sorted(glob.glob(os.path.join(os.path.dirname(os.path.abspath(__file__)),"seeded","*","meta.json"))):
     m=json.load(open(p))
     caught=", ".join(m.get("caught_by") or []) or "**missed**"
-    first=[h for h in m.get("history",[]) if h.get("caught_by")==[]]
+    # a run that ended with exit 2 (harness inconclusive, e.g. shard timeouts on a loaded machine) is neither a catch nor a miss
+    first=[h for h in m.get("history",[]) if h.get("caught_by")==[] and h.get("ran") and all(r.get("rc")==0 for r in h["ran"] if r.get("check")==m["property"])]
     note=" (missed before the check was strengthened)" if first and m.get("caught_by") else ""
     rows.append(f"| {m['seed_id']} | {m['property']} | {m.get('what','')} | {m.get('needs','')} | {caught}{note} |")
 out="# Seeded changes (independent sub-agents, property text only) and the checks that catch them\n\nEach directory holds patch.diff, the demonstration (demo.py exits 0 on the clean tree, non-zero with the patch), the author's notes and meta.json (what was run, against which /repo HEAD, with which result; `history` keeps earlier runs).\n\n| seed | property | change | needs, to manifest | caught by (quick tier) |\n|---|---|---|---|---|\n"+"\n".join(rows)+"\n"
